@@ -7,7 +7,7 @@
 * `quad_moments`  — an independent mpmath oracle (quadrature of the defining integral / finite sums);
                     imports nothing from Polar.
 * `analyze_repaired` — the whole pipeline with ONE known defect repaired in memory (attribution of the
-                    findings F131, F132, F133 only; never used to decide a verdict).
+                    finding F132 only; never used to decide a verdict).
 """
 import time
 
@@ -98,7 +98,13 @@ def _make_stub(mgf_exists=True):
             pass
 
         def get_moment(self, k):
-            raise NotImplementedError()
+            # the raw moments of the stub law are the ones its transform implies,
+            # E[X^k] = (-i)^k phi^(k)(0); a code path that takes the frequency-0 term from the
+            # moments (/repo c7c1f2a) therefore yields the same coefficient table
+            k = int(k)
+            self.calls.append(("get_moment", str(k)))
+            z = sympy.Integer(0)
+            return sympy.expand((-sympy.I) ** k * (cl["A"](sympy.Integer(k), z) + sympy.I * cl["B"](sympy.Integer(k), z)))
 
         def is_discrete(self):
             return False
@@ -470,22 +476,6 @@ def func_const_value(func, arg, k, dps=45):
 # attribution helpers: the real code with ONE defect repaired in memory (never used for a verdict)
 # --------------------------------------------------------------------------------------------------
 
-def _repaired_get_moment(self, k, rec_builder_context, arithm_cond=1, rest=1):
-    """F131: the freshly computed function value gets its own placeholder symbol, so that it is not
-    confused with the default (= the variable's previous value) of a conditioned assignment"""
-    from symengine.lib.symengine_wrapper import Symbol
-    if self.argument.is_Number:
-        func_moment = self.get_const_moment(k)
-    else:
-        ph = Symbol("_fval_" + str(self.variable))
-        ctx = rec_builder_context
-        ctx.func_assignments[ph] = self
-        ctx.dist_var_dependent_func_vars.setdefault(self.argument, set()).add(ph)
-        ctx.add_trigger(self.argument, ph)
-        func_moment = ph ** k
-    return arithm_cond * func_moment * rest + (1 - arithm_cond) * (self.default ** k) * rest
-
-
 def _defloat(p):
     """replace every machine float inside a symengine expression by the rational of its decimal text"""
     from symengine.lib.symengine_wrapper import sympify
@@ -507,37 +497,10 @@ def _defloat(p):
     return p.xreplace(rep) if rep else p
 
 
-class _DerivAtSpecialPoint:
-    """F133: `diff(cf(t), t, k)` of a Piecewise transform, evaluated at the special point of the
-    Piecewise by the limit of the generic branch instead of the derivative of the constant branch"""
-
-    def __init__(self, expr, t, k):
-        import sympy
-        self.t = t
-        self.d = sympy.diff(expr, t, k)
-
-    def xreplace(self, rule):
-        import sympy
-        w = sympy.sympify(rule.get(self.t))
-        if isinstance(self.d, sympy.Piecewise) and w == 0:
-            generic = self.d.args[0][0]
-            return sympy.limit(generic, self.t, 0)
-        return self.d.xreplace(rule)
-
-
 def _apply_repairs(names):
     from program.assignment.functional_assignment import FunctionalAssignment as FA
     from program.distribution.distribution import Distribution
     undo = []
-    if "freq0" in names:
-        import program.assignment.functional_assignment as fam
-        orig_diff = fam.diff
-        fam.diff = lambda expr, t, k: _DerivAtSpecialPoint(expr, t, k)
-        undo.append(lambda: setattr(fam, "diff", orig_diff))
-    if "condfunc" in names:
-        orig_gm = FA.__dict__["get_moment"]
-        FA.get_moment = _repaired_get_moment
-        undo.append(lambda: setattr(FA, "get_moment", orig_gm))
     if "floats" in names:
         orig_init = FA.__dict__["__init__"]
         orig_dinit = Distribution.__dict__["__init__"]
@@ -578,16 +541,6 @@ def func_moment_repaired(family, params, powers, repairs=()):
             return {"raised": False}
         except Exception as e:  # noqa
             return {"raised": True, "error": _exc(e)}
-    finally:
-        for u in reversed(undo):
-            u()
-
-
-def polar_moment_repaired(family, params, powers, mode, repairs=("freq0",)):
-    """polar_moment with a repair (value in one mode)"""
-    undo = _apply_repairs(list(repairs))
-    try:
-        return polar_moment(family, params, powers, modes=(mode,))[mode]
     finally:
         for u in reversed(undo):
             u()
